@@ -39,6 +39,9 @@ def main():
         for name in names:
             d = os.path.join(VERIF, "seeded", name)
             meta = json.load(open(os.path.join(d, "meta.json")))
+            if meta.get("obsolete"):
+                print("%-8s obsolete on the current tree (see meta.json)" % name)
+                continue
             if os.path.exists(os.path.join(d, "patch.rebased.diff")):
                 rc, o = sh("git apply %s" % os.path.join(d, "patch.rebased.diff"), cwd=WT)
             else:
